@@ -362,7 +362,7 @@ def run_check(prop, spec, tier, seed, replay, cdir, key, instr, outdir, t0):
         ss = splitmix(seed, idx)
         b = int(budget_s * 1000 * j.get("budget_frac", 1.0))
         procs.append((j, ss) + launch(cdir, j, idx, ss, b, outdir))
-    deadline = time.time() + budget_s * 1.5 + 240
+    deadline = time.time() + budget_s * 2 + 600  # generous: a hung worker is infrastructure trouble, a slow machine is not
     outs = []
     infra_msgs = []
     for idx, (j, ss, p, out, logf) in enumerate(procs):
